@@ -216,3 +216,71 @@ def library_state_ids():
             if isinstance(md, dict):
                 push(md)
     return seen
+
+
+# --------------------------------------------------------------------------- clock and randomness seams
+
+class SimClock:
+    """Virtual clock owned by the simulator. The pinned library never reads a clock; the seam exists so that a
+    change which introduces one (TTL caches, time-stamped state) is explored deterministically instead of
+    making runs irreproducible. Every `time.*` reader is replaced in the run child; reads coming from
+    library frames are counted."""
+    T0 = 1_700_000_000.0
+
+    def __init__(self):
+        import time as _t
+        self.now = SimClock.T0
+        self.reads_by_library = 0
+        self._dir = None
+        self._real = {k: getattr(_t, k) for k in ("time", "monotonic", "perf_counter", "time_ns", "monotonic_ns",
+                                                  "perf_counter_ns")}
+
+    def advance(self, dt):
+        self.now += dt
+
+    def _note(self):
+        try:
+            fn = sys._getframe(2).f_code.co_filename
+            if self._dir is None:
+                self._dir = lib_dir()
+            if fn.startswith(self._dir):
+                self.reads_by_library += 1
+        except Exception:
+            pass
+
+    def install(self):
+        import time as _t
+        clock = self
+
+        def f_time():
+            clock._note()
+            return clock.now
+
+        def f_mono():
+            clock._note()
+            return clock.now - SimClock.T0
+
+        def f_time_ns():
+            clock._note()
+            return int(clock.now * 1e9)
+
+        def f_mono_ns():
+            clock._note()
+            return int((clock.now - SimClock.T0) * 1e9)
+        _t.time = f_time
+        _t.monotonic = f_mono
+        _t.perf_counter = f_mono
+        _t.time_ns = f_time_ns
+        _t.monotonic_ns = f_mono_ns
+        _t.perf_counter_ns = f_mono_ns
+        return self
+
+
+def pin_randomness():
+    """Global RNGs start every process (run child, oracle child, fresh interpreter) in the same state, so that
+    a library that consulted them would be a deterministic function of the HISTORY (and be caught by I1)
+    instead of making runs irreproducible. The pinned library uses no randomness."""
+    import random
+    import numpy as np
+    random.seed(0)
+    np.random.seed(0)
